@@ -114,7 +114,9 @@ def _undo(repo, col):
         s = released.get(key)
         if s is None:
             continue
-        cols = s.key.args[1] if key == "params+states" and s.key.op == "tuple" else (s.value.kw.get("columns") if key == "columns" else None)
+        # the remaining channels may be consulted by the column list (drop only unshared columns) or by the row
+        # selection (NaN only the rows where no remaining channel that declares the column is present)
+        cols = s.key if key == "params+states" and s.key.op == "tuple" else (s.value.kw.get("columns") if key == "columns" else None)
         consult = cols is not None and T.find(cols, lambda x: x.op == "attr" and x.name == "channels" and
                                               T.find(x, lambda y: y.op == "attr" and y.name == "base") is not None) is not None
         what = "set to NaN in view" if key == "params+states" else "dropped"
